@@ -56,9 +56,14 @@ def gen_hub(R, tier):
         descs[a].append('[!%s]' % lab)
         descs[b].append('[!%s]' % lab)
     hubtok = '[C]' if k == 4 else '[CH]'
+    hfrag = None
+    if k == 3 and R.chance(0.4):
+        # the hub's hydrogen is an explicitly written atom that forms its own coarse node, bonded to ONE of the copies
+        hfrag = R.randrange(k)
+        hubtok = '[C]'
     frs = []
     for f in range(k):
-        ds = list(descs[f])
+        ds = list(descs[f]) + (['[$h]'] if f == hfrag else [])
         R.shuffle(ds)
         body = ''.join(chains[f])
         if R.chance(0.5):
@@ -68,18 +73,23 @@ def gen_hub(R, tier):
         else:
             txt = ''.join(ds[:1]) + hubtok + ''.join(ds[1:]) + body
         frs.append('#F%d=%s' % (f, txt))
-    R.shuffle(frs)
     names = ['F%d' % f for f in range(k)]
+    if hfrag is not None:
+        frs.append('#FH=' + R.choice(['[$h][H]', '[H][$h]']))
+        names.append('FH')
+        tree.add_edge(k, hfrag, order=1)
+    R.shuffle(frs)
+    nk = len(names)
     s = molgen.write_base(R, tree, names) + '.{' + ','.join(frs) + '}'
-    keys = list(range(k))
+    keys = list(range(nk))
     R.shuffle(keys)
-    gnodes = [[keys[f], names[f]] for f in range(k)]
+    gnodes = [[keys[f], names[f]] for f in range(nk)]
     R.shuffle(gnodes)
     gedges = [[keys[a], keys[b]] if R.chance(0.5) else [keys[b], keys[a]] for a, b in tree.edges]
     R.shuffle(gedges)
     shape = 'star' if max(dict(tree.degree).values()) == k - 1 else 'path' if max(dict(tree.degree).values()) == 2 else 'other'
-    return dict(input=s, twin=None, model=m.to_json(), nshared=k - 1, natoms=len(m.atoms) + k - 1, nfr=k, hub=True,
-                frag_block='{' + ','.join(frs) + '}', base_nodes=gnodes, base_edges=gedges, legacy_false_ok=False, features=sorted({'hub_atom_shared_by_%d' % k, 'sharing_tree:' + shape, 'atom_shared_by_3+'}))
+    return dict(input=s, twin=None, model=m.to_json(), nshared=k - 1, natoms=len(m.atoms) + k - 1, nfr=k, hub=True, hfrag=hfrag is not None,
+                frag_block='{' + ','.join(frs) + '}', base_nodes=gnodes, base_edges=gedges, legacy_false_ok=False, features=sorted({'hub_atom_shared_by_%d' % k, 'sharing_tree:' + shape, 'atom_shared_by_3+'} | ({'hydrogen_fragment_on_shared_atom'} if hfrag is not None else set())))
 
 
 def gen(R, tier):
@@ -159,8 +169,16 @@ def oracle(case):
         _, fineg = sut(lambda: MoleculeResolver.from_graph(case['frag_block'], meta).resolve_all())
         hgg = check_molecule(fineg, model_g, 'from_graph, nodes %r edges %r' % (case['base_nodes'], case['base_edges']))
         hubs = [n for n, d in fineg.nodes(data=True) if len(d.get('fragid', [])) > 1 and d.get('element') != 'H']
-        expect(len(hubs) == 1 and sorted(fineg.nodes[hubs[0]]['fragid']) == sorted(meta.nodes), 'squash:membership',
+        holders = sorted(n for n, nm in case['base_nodes'] if nm != 'FH')
+        expect(len(hubs) == 1 and sorted(fineg.nodes[hubs[0]]['fragid']) == holders, 'squash:membership',
                lambda: 'from_graph: merged atoms %r' % [(n, fineg.nodes[n]['fragid']) for n in hubs])
+        if case.get('hfrag'):
+            for what, cgx, fx in (('from_string', cg, fine), ('from_graph', None, fineg)):
+                (hk,) = [k_ for k_, d in (cgx or meta).nodes(data=True) if d.get('fragname') == 'FH']
+                mine = [n for n, d in fx.nodes(data=True) if hk in d.get('fragid', [])]
+                expect(len(mine) == 1 and fx.nodes[mine[0]].get('element') == 'H' and fx.nodes[mine[0]]['fragid'] == [hk],
+                       'squash:hydrogen-fragment-lost', lambda: '%s: coarse node %r (the hydrogen fragment) holds %r' % (
+                           what, hk, [(n, fx.nodes[n].get('element'), fx.nodes[n]['fragid']) for n in mine]))
     if case.get('twin'):
         _, fine2 = sut(resolve, case['twin'])
         check_molecule(fine2, model_g, 'disjoint description')
